@@ -12,7 +12,7 @@
 //	                          retained history
 //	asm19 <busy>              C19: one listener cannot bind (busy = smtp|pop3|web|none): after the failure is
 //	                          notified and shutdown requested, both drains and the retention Join return
-package main
+package asmsys
 
 import (
 	"context"
@@ -39,20 +39,30 @@ import (
 	"verifharness/vh"
 )
 
-func gen(g *vh.Gen) {
-	for _, p := range []string{"0s", "-1h", "0s", "24h", "1h"} {
-		g.Emit("asm12", p, vh.I(3+g.Intn(6)))
-	}
-	for i := 0; i < g.N(4, 40); i++ {
-		g.Emit("asm15", vh.I(g.Pick2(50, 200, 400)), vh.I(g.Pick2(0, 5, 30, 150)))
-	}
-	for _, b := range []string{"smtp", "pop3", "web", "none"} {
-		g.Emit("asm19", b)
+// Gen emits the assembled-system cases of one property ("asm12", "asm15" or "asm19").
+func Gen(g *vh.Gen, kind string) {
+	switch kind {
+	case "asm12":
+		for _, p := range []string{"0s", "0s", "24h", "1h", "0s"} {
+			g.Emit("asm12", p, vh.I(3+g.Intn(7)))
+		}
+	case "asm15":
+		for i := 0; i < g.N(4, 40); i++ {
+			g.Emit("asm15", vh.I(g.Pick2(50, 200, 400)), vh.I(g.Pick2(0, 5, 30, 150)))
+		}
+	case "asm19":
+		for _, b := range []string{"smtp", "pop3", "web", "none"} {
+			g.Emit("asm19", b)
+		}
 	}
 }
 
-func exec1(kind string, in []string) []string {
-	cmd := exec.Command(os.Args[0], append([]string{"child", kind}, in...)...)
+// Is reports whether a case kind belongs to this stream.
+func Is(kind string) bool { return strings.HasPrefix(kind, "asm1") }
+
+// Exec runs one case in a child process of the same binary.
+func Exec(kind string, in []string) []string {
+	cmd := exec.Command(os.Args[0], append([]string{"asmchild", kind}, in...)...)
 	var out, errb bytes.Buffer
 	cmd.Stdout, cmd.Stderr = &out, &errb
 	if err := cmd.Start(); err != nil {
@@ -182,12 +192,28 @@ func child12(period string, n int) {
 		return
 	}
 	st2, _ := file.New(config.Storage{Params: map[string]string{"path": dir}}, extension.NewHost())
-	left := 0
-	st2.VisitMailboxes(func(ms []storage.Message) bool { left += len(ms); return true })
-	if left != n {
-		// within the first minute the scanner must not have scanned at all, whatever the period;
-		// with a period <= 0 it must never delete anything
-		fmt.Printf("fail:retention-deleted-%d-of-%d-messages-at-startup(period=%s)\n", n-left, n, period)
+	// a period of zero never deletes anything; a positive period never deletes a message younger than it
+	// (whether the expired ones are already gone after 1.5 s is the scanner's business: it may wait a minute)
+	pd, _ := time.ParseDuration(period)
+	must := 0
+	for i := 0; i < n; i++ {
+		if pd <= 0 || ages[i%len(ages)] < pd-time.Minute {
+			must++
+		}
+	}
+	left, young := 0, 0
+	now := time.Now()
+	st2.VisitMailboxes(func(ms []storage.Message) bool {
+		for _, m := range ms {
+			left++
+			if pd <= 0 || now.Sub(m.Date()) < pd-time.Minute {
+				young++
+			}
+		}
+		return true
+	})
+	if young != must {
+		fmt.Printf("fail:retention-deleted-%d-of-%d-unexpired-messages-in-the-served-store(period=%s,left=%d-of-%d)\n", must-young, must, period, left, n)
 		return
 	}
 	fmt.Println("ok")
@@ -325,9 +351,11 @@ func child19(busy string) {
 	fmt.Println("ok")
 }
 
-func main() {
-	zerolog.SetGlobalLevel(zerolog.Disabled)
-	if len(os.Args) > 2 && os.Args[1] == "child" {
+// ChildMain must be called first thing in main(): it runs a case when this process is the child
+// of Exec and reports whether it did.
+func ChildMain() bool {
+	if len(os.Args) > 3 && os.Args[1] == "asmchild" {
+		zerolog.SetGlobalLevel(zerolog.Disabled)
 		a := os.Args[3:]
 		switch os.Args[2] {
 		case "asm12":
@@ -337,7 +365,7 @@ func main() {
 		case "asm19":
 			child19(a[0])
 		}
-		return
+		return true
 	}
-	vh.Main(gen, exec1)
+	return false
 }
